@@ -427,6 +427,8 @@ def convert_resize_to_upscale_and_average_pool(op):
     pre_op = op
     outputs = op.outputs
     dtype = op.ifm.dtype
+    # The OFM tensor can be the (differently shaped) output of a bypassed memory only operator, e.g. a Reshape
+    final_ofm_shape = op.ofm_shapes[0]
 
     op.attrs.update({"strides": (1, 1, 1, 1), "ksize": (1, 1, 1, 1)})
     op.attrs["padding"] = Padding.SAME  # doesn't really matter as the kernel is 1x1
@@ -490,6 +492,7 @@ def convert_resize_to_upscale_and_average_pool(op):
     scaled_op.outputs = outputs
     scaled_op.outputs[0].ops = [scaled_op]
     scaled_op.set_ifm_ofm_shapes()
+    scaled_op.ofm_shapes[0] = final_ofm_shape
     DebugDatabase.add_optimised(op, scaled_op)
 
     return op
@@ -1905,7 +1908,11 @@ def replace_pad_by_hw_pad(op: Operation, arch, nng) -> Operation:
         # Adjust the padding attributes of the convolution operator
         op.attrs["padding"] = Padding.EXPLICIT
         op.attrs["explicit_padding"] = (top, left, bottom, right)
+        # Only the IFM has changed. The OFM shape must not be re-derived from the OFM tensor, which can be the
+        # (differently shaped) output of a bypassed memory only operator, e.g. a Reshape
+        ofm_shapes = op.ofm_shapes
         op.set_ifm_ofm_shapes()
+        op.ofm_shapes = ofm_shapes
         DebugDatabase.add_optimised(op, op)
 
     return op
